@@ -90,7 +90,10 @@ func getPipelineMap(spec *Spec) (map[PacketType]string, error) {
 	ans := make(map[PacketType]string)
 
 	// current only support route pipeline using packet type
-	for _, rule := range spec.Rules {
+	for i, rule := range spec.Rules {
+		if rule == nil || rule.When == nil {
+			return nil, fmt.Errorf("rule %d has no when", i)
+		}
 		if _, ok := pipelinePacketTypes[rule.When.PacketType]; !ok {
 			return nil, fmt.Errorf("pipeline packet type %v not found, only support %v", rule.When.PacketType, pipelinePacketTypes)
 		}
@@ -98,13 +101,6 @@ func getPipelineMap(spec *Spec) (map[PacketType]string, error) {
 			return nil, fmt.Errorf("pipeline packet type %v show more than once", rule.When.PacketType)
 		}
 		ans[rule.When.PacketType] = rule.Pipeline
-	}
-
-	if _, ok := ans[Publish]; !ok {
-		logger.Warnf("no pipeline for publish packet type to send MQTT message to backend")
-	}
-	if _, ok := ans[Connect]; !ok {
-		logger.Warnf("no pipeline for connect packet type to check username and password of MQTT client")
 	}
 	return ans, nil
 }
@@ -122,6 +118,12 @@ func newBroker(spec *Spec, store storage, muxMapper context.MuxMapper, memberURL
 	pipelines, err := getPipelineMap(spec)
 	if err != nil {
 		panic(fmt.Sprintf("create pipeline map failed, %v", err))
+	}
+	if _, ok := pipelines[Publish]; !ok {
+		logger.Warnf("no pipeline for publish packet type to send MQTT message to backend")
+	}
+	if _, ok := pipelines[Connect]; !ok {
+		logger.Warnf("no pipeline for connect packet type to check username and password of MQTT client")
 	}
 	broker.pipelines = pipelines
 
